@@ -271,7 +271,11 @@ def h_two_chips(ctx, W, routes_a, routes_b, srcs_b, target):
                     exact=na)
     tb = make_table(ctx, nb, W, routes_b, srcs_b, "sorted", False)
     orig_a, orig_b = list(ta), list(tb)
-    t = _target(ctx, max(na, nb), target)
+    t = _target(ctx, max(na, nb), target if target != "dict" else "sym")
+    if target == "dict":
+        # per-chip targets: a symbolic one for the second chip, None for the
+        # first, no entry needed for absent chips
+        t = {(0, 0): None, (1, 0): t}
     pk = ctx.bv("pk", 32)
     tables = {(0, 0): ta, (1, 0): tb}
     _check_process_state(ctx)
@@ -294,6 +298,12 @@ def h_two_chips(ctx, W, routes_a, routes_b, srcs_b, target):
                 [(e.key, e.mask, sorted(int(r) for r in e.route))
                  for e in oa + ob])
     ctx.prove(len(oa) <= na and len(ob) <= nb, "minimise-longer")
+    if isinstance(t, dict):
+        ctx.prove(len(ob) <= t[(1, 0)], "minimise-target-missed",
+                  (len(ob), t[(1, 0)]))
+    elif t is not None:
+        ctx.prove(sand(len(oa) <= t, len(ob) <= t), "minimise-target-missed",
+                  (len(oa), len(ob), t))
     check_equivalent(ctx, orig_a, oa, pk, "minimise-route-changed")
     check_equivalent(ctx, orig_b, ob, pk, "minimise-route-changed")
     ctx.prove(set(out) <= {(0, 0), (1, 0)}, "minimise-tables-extra-chip")
@@ -563,6 +573,11 @@ def units(tier, seed):
             witnesses=("merged",), path_timeout_s=300, timeout_ms=300000))
     step(2, "AAB", "uuu", (0, 0, 2))
     step(2, "AAB", "udu", (2, 0, 0))
+    us.append(Unit("tables two chips W=2 A=AA B=BA target=dict", h_two_chips,
+                   dict(W=2, routes_a="AA", routes_b="BA", srcs_b="du",
+                        target="dict"), split=5,
+                   witnesses=("returned", "failed"),
+                   path_timeout_s=300, timeout_ms=300000))
     if tier == "thorough":
         us.append(Unit("tables two chips W=3 A=AA B=BBA target=sym",
                        h_two_chips,
